@@ -196,7 +196,7 @@ def readIntfF (p : Path) : Nat → Bytes → Res Obj
     | lead :: tl =>
     match header b with
     | none => .err
-    | some (.scalar o, r) => .ok o r
+    | some (.scalar o, r) => .ok o.toObj r
     | some (.blob k n, r) =>
       if r.length < n then .err
       else .ok (blobObj k (r.take n)) (r.drop n)
